@@ -1037,6 +1037,7 @@ func (c *compiler) compileSwitchStatement(v *ast.SwitchStatement, needResult boo
 
 	var enter *enterBlock
 	var db *binding
+	var initDiscr int
 	if scopeDeclared {
 		c.block = &block{
 			typ:        blockScope,
@@ -1045,6 +1046,9 @@ func (c *compiler) compileSwitchStatement(v *ast.SwitchStatement, needResult boo
 		}
 		enter = &enterBlock{}
 		c.emit(enter)
+		// placeholder: replaced below if the discriminant binding ends up in the stash
+		initDiscr = len(c.p.code)
+		c.emit(jump(1))
 		// create anonymous variable for the discriminant
 		bindings := c.scope.bindings
 		var bb []*binding
@@ -1115,8 +1119,16 @@ func (c *compiler) compileSwitchStatement(v *ast.SwitchStatement, needResult boo
 		c.p.code[jumpNoMatch] = jump(len(c.p.code) - jumpNoMatch)
 	}
 	if enter != nil {
+		dynamic := c.scope.isDynamic() || db.inStash
 		c.leaveScopeBlock(enter)
-		enter.stackSize--
+		if dynamic {
+			// all bindings of a dynamic scope (direct eval / with inside the switch) live in the stash,
+			// including the anonymous discriminant (slot 0): move the value there from the stack
+			c.p.code[initDiscr] = initStashP(0)
+		} else {
+			// the discriminant already occupies the first stack slot of the block
+			enter.stackSize--
+		}
 		c.popScope()
 	}
 	c.leaveBlock()
